@@ -114,16 +114,18 @@ def specs():
     add(a + "emergency_status", adsb.emergency_status, isint, v1)
     add(a + "tcas_operational", adsb.tcas_operational, obool, lambda f: f["tc"] == 29 and f["st29"] in (0, 1))
     # position functions
-    ref = lambda m, o, r: (m, r.uniform(-80, 80), r.uniform(-180, 180))  # noqa
+    rlat = lambda r: r.choice((r.uniform(-80, 80), r.uniform(-90, 90), r.uniform(84, 90), r.uniform(-90, -84), 90.0, -90.0, 0.0, 87.0, -87.0,  # noqa
+                               float(r.randint(-90, 90)), r.randint(-90, 90)))
+    rlon = lambda r: r.choice((r.uniform(-180, 180), r.uniform(-180, 180), 0.0, 180.0, -180.0, 90.0, -90.0, r.randint(-180, 180)))  # noqa
+    ref = lambda m, o, r: (m, rlat(r), rlon(r))  # noqa
     add(a + "position_with_ref", adsb.position_with_ref, tup(num, num), tcin(*POS), ref)
     add(a + "airborne_position_with_ref", adsb.airborne_position_with_ref, tup(num, num), None, ref)
     add(a + "surface_position_with_ref", adsb.surface_position_with_ref, tup(num, num), None, ref)
     pair = lambda m, o, r: (m, o, 1, 2)  # noqa
-    pairref = lambda m, o, r: (m, o, r.choice((1, 3)), 2, r.uniform(-80, 80), r.uniform(-180, 180))  # noqa
+    pairref = lambda m, o, r: (m, o, r.choice((1, 3)), 2, rlat(r), rlon(r))  # noqa
     # position(): lat_ref / lon_ref are documented None | float - any combination of given / omitted halves is a legal call
     posref = lambda m, o, r: (m, o, r.choice((1, 3)), 2) + r.choice((  # noqa
-        (r.uniform(-80, 80), r.uniform(-180, 180)), (r.uniform(-80, 80), r.uniform(-180, 180)), (r.uniform(-80, 80),),
-        (None, r.uniform(-180, 180)), (r.uniform(-80, 80), None), ()))
+        (rlat(r), rlon(r)), (rlat(r), rlon(r)), (rlat(r),), (None, rlon(r)), (rlat(r), None), ()))
     add(a + "position", adsb.position, latlon, tcin(*POS), posref)
     add(a + "airborne_position", adsb.airborne_position, latlon, None, pair)
     add(a + "surface_position", adsb.surface_position, latlon, None, pairref)
